@@ -418,13 +418,28 @@ class netcdf_indexer:
         # are strictly increasing. So index such a variable with the
         # sorted unique elements, and restore the requested order and
         # any repeats afterwards.
+        #
+        # Similarly, such variables can not be indexed with a slice
+        # that has a negative step. So index with the equivalent
+        # slice with a positive step, and reverse the axis afterwards.
         reorder = {}
+        reverse = []
         if not isinstance(data, np.ndarray):
             index = list(index)
             for n in axes_with_list_indices:
                 i = np.asanyarray(index[n])
                 if i.size > 1 and not (np.diff(i) > 0).all():
                     index[n], reorder[n] = np.unique(i, return_inverse=True)
+
+            for n, i in enumerate(index):
+                if isinstance(i, slice) and i.step is not None and i.step < 0:
+                    r = range(*i.indices(data.shape[n]))
+                    if r:
+                        index[n] = slice(r[-1], r[0] + 1, -i.step)
+                    else:
+                        index[n] = slice(0, 0)
+
+                    reverse.append(n)
 
             index = tuple(index)
 
@@ -492,6 +507,15 @@ class netcdf_indexer:
         # that had to be sorted
         for n, inverse in reorder.items():
             data = np.ma.take(data, inverse, axis=n)
+
+        # Reverse the axes that were indexed with a positive step
+        # instead of a negative one
+        if reverse:
+            index4 = [slice(None)] * data.ndim
+            for n in reverse:
+                index4[n] = slice(None, None, -1)
+
+            data = data[tuple(index4)]
 
         # Apply any integer indices that will drop axes
         index3 = [0 if isinstance(i, Integral) else slice(None) for i in index]
